@@ -170,13 +170,18 @@ def cmd_check(prop, tier):
     os.makedirs(outdir, exist_ok=True)
     total_share = sum(u[2] for u in units)
     procs = []
+    known_file = os.path.join(outdir, "known.txt")
+    with open(known_file, "w") as kf:
+        for k in load_known():
+            if k.get("status") == "known" and k.get("property") == prop:
+                kf.write(k["fingerprint"] + "\n")
     cap = 60 if tier == "quick" else 1500
     for (binary, world, share, qruns, truns) in units:
         nw = max(1, (WORKERS * share) // total_share)
         count = qruns if tier == "quick" else truns
         for w in range(nw):
             cmd = [os.path.join(bdir, binary), "run", "--world", world, "--seed", str(seed), "--from", "0", "--count", str(count), "--stride", str(nw), "--offset", str(w),
-                   "--tier", "0" if tier == "quick" else "1", "--out", outdir, "--max-seconds", str(cap), "--max-violations", "6"]
+                   "--tier", "0" if tier == "quick" else "1", "--out", outdir, "--max-seconds", str(cap), "--max-violations", "6", "--known-file", known_file]
             procs.append((binary, world, w, subprocess.Popen(cmd, stdout=subprocess.PIPE, stderr=subprocess.DEVNULL, text=True)))
     stats = dict(runs=0, steps=0, nontrivial=0, checks=0, faults={}, probes={})
     violations, nondet, samples, truncated, harness_errors = [], [], [], 0, 0
